@@ -619,6 +619,51 @@ def check_digitalign(res, facts):
                 rule.ok(key, "plain traversal of the scalar slice", fn.loc)
 
 
+def check_mapalign(res, facts):
+    """HashMapPippenger hands msm_bigint two vectors collected from ONE map, `keys()` and `values()`, which are paired by
+    position.  Any selective adaptor (filter, skip, take, rev ...) has to act on both sides alike (`retain` on the map before
+    both collections does); a helper that collects one side is followed into its body."""
+    from rules.c07 import E, show
+    rule = res.rule("R-MAPALIGN", "HashMapPippenger: the base vector and the scalar vector handed to msm_bigint are collected from the same map with the same selection (paired by position)", 2)
+    SEL = {"filter", "filter_map", "skip", "skip_while", "take", "take_while", "step_by", "rev", "map_while", "dedup", "chunks", "sorted", "sort"}
+    HEAD = "ark_ec::scalar_mul::variable_base::stream_pippenger::HashMapPippenger"
+    fns = [f for f in facts.fns(unit="ws", crate="ark_ec") if f.kind != "Closure" and f.self_head == HEAD]
+    byname = {f.name: f for f in fns}
+
+    def names(term, depth=0):
+        out = set()
+        if isinstance(term, tuple):
+            if term and term[0] == "call" and len(term) > 1 and isinstance(term[1], str):
+                out.add(term[1])
+                h = byname.get(term[1])
+                if h is not None and depth < 2:
+                    out |= {t["f"].get("name") for _, t in h.calls()}
+            for c in term:
+                out |= names(c, depth)
+        elif isinstance(term, list):
+            for c in term:
+                out |= names(c, depth)
+        return out
+    n = 0
+    for fn in fns:
+        for bb, t in fn.calls():
+            if t["f"].get("name") not in ("msm_bigint", "msm", "msm_unchecked") or len(t["args"]) != 2:
+                continue
+            n += 1
+            key = "ark_ec|HashMapPippenger::%s" % fn.name
+            both = {"filter"} if any(ct["f"].get("name") == "retain" and ct.get("ln", 0) < t.get("ln", 1 << 30) for _, ct in fn.calls()) else set()
+            nb, ns = names(E(fn, t["args"][0])), names(E(fn, t["args"][1]))
+            sb, ss = (nb & SEL) | both, (ns & SEL) | both
+            if "keys" not in nb and "values" not in ns:
+                rule.noverdict(key, "the two vectors are not collected through keys() / values() (shape not modelled)", fn.loc)
+            elif sb != ss:
+                rule.bad(key, "bases are selected by %s but scalars by %s: the vectors are paired by position, so every entry after a dropped one meets the wrong partner (msm_bigint truncates to the shorter side)" % (sorted(sb) or "nothing", sorted(ss) or "nothing"), fn.loc)
+            else:
+                rule.ok(key, "keys() and values() of the same map, same selection (%s)" % (sorted(sb) or "none"), fn.loc)
+    if n == 0:
+        rule.bad("ark_ec|HashMapPippenger", "anchor missing: no msm call in HashMapPippenger")
+
+
 def _defer(res, rule_name, proved, why):
     """template rules on the kernels' shape: once R-MSM.value has proved both kernels on its scalar families, a body that no
     longer matches the template (or can no longer be followed) is not a violation by itself -- the value is decided"""
@@ -662,6 +707,7 @@ def run(ctx, res):
     check_buckets(res, facts)
     res.rule = _orig_rule
     check_digitalign(res, facts)
+    check_mapalign(res, facts)
     return {
         "level": "other",
         "explanation": "Typestate / pairing rules over the MIR of ark-ec's variable-base MSM and streaming Pippenger code (serial and parallel configurations): lock-step mutation of paired buffers, length policy of checked and unchecked entry points, flush/finalize structure, window recombination. Does NOT decide that any entry point returns the sum (digit extraction and bucket indexing are run-time index arithmetic).",
